@@ -97,7 +97,7 @@ impl Property for C16 {
         }
     }
     fn rule(&self) -> &'static str {
-        "corpus chunks / generated programs under token-level mutation (delete, duplicate, swap, truncate, delimiter imbalance, splice, non-ASCII incl. wide white space, multi-byte identifiers, odd but lexable literals, markdown doc comments; the options that process the inserted material are switched on half of the time) or arbitrary re-layout, nesting to depth 64, random configuration with max_width>=20 and >=5*tab_spaces; oracle: Session::format and report rendering return normally in a worker with overflow checks on (a worker death is a violation); non-trivial = the text has >=5 tokens and differs from the corpus text; distinct by case content"
+        "corpus chunks / generated programs under token-level mutation (delete, duplicate, swap, truncate, delimiter imbalance, splice, non-ASCII incl. wide white space, multi-byte identifiers, odd but lexable literals, markdown doc comments; the options that process the inserted material are switched on half of the time) or arbitrary re-layout, generated import groups (C10's generator, as written or mutated) under the import options, vertically aligned lists with multi-byte names under the alignment thresholds, nesting to depth 64, random configuration with max_width>=20 and >=5*tab_spaces; oracle: Session::format and report rendering return normally in a worker with overflow checks on (a worker death is a violation); non-trivial = the text has >=5 tokens and differs from the corpus text; distinct by case content"
     }
     fn assumptions(&self) -> Vec<&'static str> {
         vec![
@@ -135,7 +135,58 @@ impl Property for C16 {
         Some(json!({"src": text, "opts": opts_to(&opts), "origin": cell.src.origin, "mutations": muts, "cell": cell.cell}))
     }
     fn generate(&self, c: &mut Choices<'_>, g: &GenCtx) -> Value {
-        let mode = c.weighted(&[6, 3, 1]);
+        let mode = c.weighted(&[6, 3, 1, 1, 1]);
+        if mode == 3 {
+            // groups of imports (duplicates, aliases, nested and empty lists) under the
+            // granularity / grouping / layout options, as written or after 1..2 token mutations
+            let case = crate::props::c10::C10.generate(c, g);
+            let src = case["src"].as_str().unwrap_or("").to_string();
+            let k = 1 + c.below(2);
+            let (text, mut muts) = if c.flip() { mutate(&src, c, k) } else { (src, vec![]) };
+            muts.push("import-groups");
+            return json!({"src": text, "opts": case["opts"], "origin": "import-groups", "mutations": muts});
+        }
+        if mode == 4 {
+            // vertically aligned lists whose names and values contain multi-byte and
+            // double-width characters, under the alignment thresholds
+            const NAMES: &[&str] = &["x", "größe", "名前", "a_long_field_name", "é", "данные", "n2"];
+            const VALS: &[&str] = &["1", "\"ünï\"", "compute(2)", "'日'", "22", "Vec<Größe>"];
+            let kind = c.below(3);
+            let n = 1 + c.below(5);
+            let mut body = String::new();
+            for i in 0..n {
+                if i > 0 && c.chance(1, 5) {
+                    body.push('\n');
+                }
+                let name = *c.pick(NAMES);
+                match kind {
+                    0 => body.push_str(&format!("{name}{i}: {}, ", *c.pick(&["u8", "Vec<Größe>", "Option<u16>"]))),
+                    1 => body.push_str(&format!("{name}{}: {}, ", if c.flip() { i.to_string() } else { String::new() }, *c.pick(VALS))),
+                    _ => body.push_str(&format!("V{name}{i} = {}, ", 1 + c.below(300))),
+                }
+                if c.chance(1, 4) {
+                    body.push_str("// ünï ✓\n");
+                } else if c.flip() {
+                    body.push('\n');
+                }
+            }
+            let text = match kind {
+                0 => format!("struct Foo {{ {body} }}\n"),
+                1 => format!("fn f() {{ let v = Point {{ {body} }}; }}\n"),
+                _ => format!("enum E {{ {body} }}\n"),
+            };
+            let mut opts: crate::fmt::Opts = vec![
+                (if kind == 2 { "enum_discrim_align_threshold" } else { "struct_field_align_threshold" }.to_string(), (*c.pick(&["1", "5", "20", "40"])).to_string()),
+                ("max_width".into(), (20 + c.below(100)).to_string()),
+            ];
+            if c.chance(1, 4) {
+                opts.push(("hard_tabs".into(), "true".into()));
+            }
+            if c.chance(1, 4) {
+                opts.push(("indent_style".into(), "Visual".into()));
+            }
+            return json!({"src": text, "opts": opts_to(&opts), "origin": "aligned-lists", "mutations": ["aligned-lists"]});
+        }
         let space = ConfSpace {
             max_extra: 4,
             ..ConfSpace::default()
